@@ -301,8 +301,14 @@ func c09Exec(plan *Plan, st *Stats) *Violation {
 	{
 		var others []*dynRunner
 		k := 0
+		unseeded := neighbour
+		unseeded.World.Host.Seed = "" // a runner without a seed takes one from wherever the library finds entropy
 		c09BetweenOps = func() {
-			if nd, err := newDyn(&neighbour.World, false); err == nil {
+			nw := &neighbour.World
+			if k%2 == 1 {
+				nw = &unseeded.World
+			}
+			if nd, err := newDyn(nw, false); err == nil {
 				nd.apply(&neighbour.Ops[k%len(neighbour.Ops)])
 				k++
 				others = append(others, nd)
